@@ -28,6 +28,31 @@
 (* (head first).  Quirk kept as is: a channel that is Idle or Busy is "not *)
 (* Open" for __Get (states other than 2 behave like 4 here).               *)
 (*                                                                         *)
+(* Aperture = TRUE models ApertureBalancerSink on top of the same heap      *)
+(* (aperture.py with load-based resizing and jitter configured off:        *)
+(* min_load below 0, max_load unreachable, jitter 0 - the only changes of  *)
+(* the aperture are the ones forced by members going down or leaving):     *)
+(*   _AddSink      the endpoint joins the heap if fewer than MinSize heap  *)
+(*                 members have a channel that is not Closed, else it is   *)
+(*                 held in `idle`                                          *)
+(*   _OnNodeDown   called by __Get IN THE MIDDLE of a dispatch, right after *)
+(*                 the root was marked down: unless that channel is Idle, *)
+(*                 _TryExpandAperture moves a random idle endpoint (action *)
+(*                 parameter `pick`; the least one if pick is not idle)    *)
+(*                 into the heap: new node at the end + FixUp; its channel *)
+(*                 is Open at once or still opening (parameter `nst`)      *)
+(*   _RemoveSink   heap removal as above, then _TryExpandAperture; an idle *)
+(*                 endpoint is just forgotten                              *)
+(* Channel opens always succeed in this model (an Idle channel only goes   *)
+(* Open); the open-failure path (_OnOpenNodeComplete -> _OnNodeDown from a *)
+(* deferred callback) is exercised on the real class only.                 *)
+(* StaleSize = TRUE is the variant of _AsyncProcessRequestImpl that reads  *)
+(* _size once before __Get and re-uses it as the bound of the FixDown      *)
+(* after the pick (kept as a counterexample generator: the aperture grows  *)
+(* inside __Get, the sift-down ignores the new last slot, and the next     *)
+(* request goes to a member with 1 outstanding although an open aperture   *)
+(* member has 0: C03.openLeast).                                           *)
+(*                                                                         *)
 (* CONSTANT Repaired selects the variant of __Put / _RemoveSink:           *)
 (*   FALSE  heap.py as found: after Swap(i, size) only FixDown(i, size-1)  *)
 (*   TRUE   with fixes/C03-heap-fixup.diff: additionally FixUp(i) when     *)
@@ -50,6 +75,9 @@ CONSTANTS MaxNodes,   \* node objects that may ever be created
           Membership, \* joins and leaves happen
           TrackLate,  \* timeouts leave a late arrival behind
           Noise,      \* duplicate joins and leaves of unknown endpoints happen (no-ops for the heap)
+          Aperture,   \* FALSE: HeapBalancerSink; TRUE: ApertureBalancerSink (resizing and jitter off)
+          MinSize,    \* aperture: min_size
+          StaleSize,  \* see above
           Light       \* TRUE: no End / Q events (the projection clauses are then covered by the
                       \* invariant Structural only); for the large dispatch/completion configs
 
@@ -57,15 +85,17 @@ CONSTANTS MaxNodes,   \* node objects that may ever be created
 \* close clauses of a leave need
 ASSUME Light => ~Membership
 
-VARIABLES heap, load, ns, downq, chan, epn, late, neg, abs, viol
-ivars == <<heap, load, ns, downq, chan, epn, late, neg>>
+VARIABLES heap, load, ns, downq, chan, epn, late, neg, idle, abs, viol
+ivars == <<heap, load, ns, downq, chan, epn, late, neg, idle>>
 vars == <<ivars, abs, viol>>
 
 NodeIds == 1..MaxNodes
 CLOSED == 4
+IDLE == 1
 Size == Len(heap)
 Created == {n \in NodeIds : ns[n] # "free"}
 CurEps == {epn[heap[i]] : i \in DOMAIN heap}
+Members == CurEps \cup idle      \* endpoints the balancer holds: heap nodes + (aperture) idle endpoints
 PosOf(hp, n) == CHOOSE i \in DOMAIN hp : hp[i] = n
 
 \* ------------------------------------------------------------------ class Heap
@@ -90,22 +120,51 @@ SwapOut(hp, ld, i, sz) ==
   IN IF Repaired /\ i # sz THEN FixUp(h2, ld, i) ELSE h2
 
 \* ------------------------------------------------------------------ __Get
+\* The working state s carries everything a dispatch may change: heap, load, downq and - for the
+\* aperture, which creates nodes inside __Get - ns, chan, epn, idle, the Create events (evs) and
+\* `over` (the model ran out of node objects: the step is then not taken).
 ScanStep(s, n) ==
-  IF ns[n] = "rm" THEN s                                     \* discarded node: unlink
-  ELSE IF chan[n] = OPEN
+  IF s.ns[n] = "rm" THEN s                                   \* discarded node: unlink
+  ELSE IF s.chan[n] = OPEN
   THEN LET ld == [s.load EXCEPT ![n] = @ - P]                \* resurrected
        IN [s EXCEPT !.load = ld, !.heap = FixUp(s.heap, ld, PosOf(s.heap, n))]
   ELSE [s EXCEPT !.downq = Append(@, n)]                     \* no change
 Scan(s) == FoldLeft(ScanStep, [s EXCEPT !.downq = <<>>], s.downq)
 
-RECURSIVE GetLoop(_)
-GetLoop(s) ==
+MinOf(S) == CHOOSE x \in S : \A y \in S : x <= y
+
+\* HeapBalancerSink._AddSink: new node with load Idle at the end of the array, FixUp
+AppendNode(s, e, nst) ==
+  LET n == Cardinality({x \in NodeIds : s.ns[x] # "free"}) + 1
+  IN IF n > MaxNodes THEN [s EXCEPT !.over = TRUE]
+     ELSE LET ld == [s.load EXCEPT ![n] = 0]
+          IN [s EXCEPT !.load = ld,
+                       !.ns[n] = "in",
+                       !.epn[n] = e,
+                       !.chan[n] = nst,
+                       !.heap = FixUp(Append(s.heap, n), ld, Len(s.heap) + 1),
+                       !.evs = Append(@, [e |-> "Create", n |-> n, ep |-> e])]
+
+\* ApertureBalancerSink._TryExpandAperture: random.choice over the idle endpoints
+Expand(s, pick, nst) ==
+  IF s.idle = {} THEN s
+  ELSE LET e == IF pick \in s.idle THEN pick ELSE MinOf(s.idle)
+       IN AppendNode([s EXCEPT !.idle = @ \ {e}], e, nst)
+
+RECURSIVE GetLoop(_, _, _)
+GetLoop(s, pick, nst) ==
   LET s1 == Scan(s)
       n == s1.heap[1]
-  IN IF chan[n] = OPEN \/ s1.load[n] >= P THEN s1
+  IN IF s1.chan[n] = OPEN \/ s1.load[n] >= P THEN s1
      ELSE LET ld == [s1.load EXCEPT ![n] = @ + P]            \* node is now down
-          IN GetLoop([heap |-> FixDown(s1.heap, ld, 1, Len(s1.heap)), load |-> ld,
-                      downq |-> <<n>> \o s1.downq])
+              s2 == [s1 EXCEPT !.heap = FixDown(s1.heap, ld, 1, Len(s1.heap)), !.load = ld,
+                               !.downq = <<n>> \o s1.downq]
+              \* _OnNodeDown: the aperture replaces a member whose channel is not merely Idle
+              s3 == IF Aperture /\ s1.chan[n] # IDLE THEN Expand(s2, pick, nst) ELSE s2
+          IN IF s3.over THEN s3 ELSE GetLoop(s3, pick, nst)
+
+Work0 == [heap |-> heap, load |-> load, downq |-> downq, ns |-> ns, chan |-> chan, epn |-> epn,
+          idle |-> idle, evs |-> <<>>, over |-> FALSE]
 
 \* ------------------------------------------------------------------ events for the Abs machine
 Eff(ld, n) == IF ld[n] >= P THEN ld[n] - P ELSE ld[n]
@@ -117,8 +176,9 @@ ProjOf(ld, nss, ng) ==
                                    IF ld[sq[i]] >= P THEN 1 ELSE 0>>]]
 \* every action is synchronous, so every step ends quiescent: End, then Q with the endpoints
 \* of the heap after the step
-QOf(hp, ep) == [e |-> "Q", hasE |-> 1, elig |-> [i \in DOMAIN hp |-> ep[hp[i]]]]
-StepEnd(ld, nss, ng, hp, ep) == IF Light THEN <<>> ELSE <<ProjOf(ld, nss, ng), QOf(hp, ep)>>
+QOf(hp, ep, idl) == [e |-> "Q", hasE |-> 1, elig |-> [i \in DOMAIN hp |-> ep[hp[i]]] \o SetToSeq(idl)]
+StepEndI(ld, nss, ng, hp, ep, idl) == IF Light THEN <<>> ELSE <<ProjOf(ld, nss, ng), QOf(hp, ep, idl)>>
+StepEnd(ld, nss, ng, hp, ep) == StepEndI(ld, nss, ng, hp, ep, idle)
 UOf == [i \in DOMAIN heap |-> <<heap[i], chan[heap[i]], abs.node[heap[i]].out>>]
 
 Emit(evs) ==
@@ -127,22 +187,30 @@ Emit(evs) ==
      /\ viol' = IF viol = "ok" THEN r.v ELSE viol
 
 \* ------------------------------------------------------------------ actions
-Dispatch ==
+Dispatch(pick, nst) ==
   IF Size = 0
   THEN /\ Emit(<<[e |-> "Disp", r |-> 0, n |-> -1, err |-> "nomembers", st |-> 0, fresh |-> 0,
                   hasU |-> 1, U |-> <<>>]>> \o StepEnd(load, ns, neg, heap, epn))
        /\ UNCHANGED ivars
-  ELSE LET g == GetLoop([heap |-> heap, load |-> load, downq |-> downq])
+  ELSE LET g == GetLoop(Work0, pick, nst)
            n == g.heap[1]
            ld == [g.load EXCEPT ![n] = @ + 1]
-           hp == FixDown(g.heap, ld, 1, Size)
-       IN /\ abs.node[n].out < MaxLoad
+           \* Heap.FixDown(self._heap, n.index, self._size); StaleSize: the bound was read before __Get
+           hp == FixDown(g.heap, ld, 1, IF StaleSize THEN Size ELSE Len(g.heap))
+       IN /\ ~g.over
+          /\ (IF n \in Nodes(abs) THEN abs.node[n].out ELSE 0) < MaxLoad
           /\ heap' = hp
           /\ load' = ld
           /\ downq' = g.downq
-          /\ Emit(<<[e |-> "Disp", r |-> 0, n |-> n, err |-> "none", st |-> chan[n], fresh |-> 0,
-                     hasU |-> 1, U |-> UOf]>> \o StepEnd(ld, ns, neg, hp, epn))
-          /\ UNCHANGED <<ns, chan, epn, late, neg>>
+          /\ ns' = g.ns
+          /\ chan' = g.chan
+          /\ epn' = g.epn
+          /\ idle' = g.idle
+          /\ Emit(g.evs
+                  \o <<[e |-> "Disp", r |-> 0, n |-> n, err |-> "none", st |-> g.chan[n],
+                        fresh |-> IF ns[n] = "free" THEN 1 ELSE 0, hasU |-> 1, U |-> UOf]>>
+                  \o StepEndI(ld, g.ns, neg, hp, g.epn, g.idle))
+          /\ UNCHANGED <<late, neg>>
 
 Put(n, j, kind) ==
   /\ ns[n] # "free" /\ abs.node[n].out > 0
@@ -171,77 +239,106 @@ Put(n, j, kind) ==
         /\ Emit(<<[e |-> "Comp", r |-> 0, n |-> n, kind |-> kind]>>
                 \o (IF closes THEN <<[e |-> "CloseSeen", n |-> n]>> ELSE <<>>)
                 \o StepEnd(ld, ns, ng, hp, epn))
-        /\ UNCHANGED <<ns, downq, epn>>
+        /\ UNCHANGED <<ns, downq, epn, idle>>
 
 LateArrive(n) ==
   /\ TrackLate /\ late[n] = 1
   /\ late' = [late EXCEPT ![n] = 0]
   /\ Emit(<<[e |-> "Late", r |-> 0, n |-> n]>> \o StepEnd(load, ns, neg, heap, epn))
-  /\ UNCHANGED <<heap, load, ns, downq, chan, epn, neg>>
+  /\ UNCHANGED <<heap, load, ns, downq, chan, epn, neg, idle>>
+
+\* number of heap members whose channel is_open (state <= Busy, i.e. not Closed)
+Healthy == Cardinality({i \in DOMAIN heap : chan[heap[i]] # CLOSED})
 
 AddSink(e) ==
-  /\ Membership /\ e \notin CurEps /\ Cardinality(Created) < MaxNodes
-  /\ LET n == Cardinality(Created) + 1
-         ld == [load EXCEPT ![n] = 0]
-         nss == [ns EXCEPT ![n] = "in"]
-         hp == FixUp(Append(heap, n), ld, Size + 1)
-         epp == [epn EXCEPT ![n] = e]
-     IN /\ heap' = hp
-        /\ load' = ld
-        /\ ns' = nss
-        /\ epn' = epp
-        /\ chan' = [chan EXCEPT ![n] = IF Faults THEN CLOSED ELSE OPEN]
-        /\ Emit(<<[e |-> "Join", ep |-> e], [e |-> "Create", n |-> n, ep |-> e],
-                  [e |-> "JoinDone", ep |-> e]>> \o StepEnd(ld, nss, neg, hp, epp))
-        /\ UNCHANGED <<downq, late, neg>>
+  /\ Membership /\ e \notin Members
+  /\ IF Aperture /\ Healthy >= MinSize
+     THEN \* ApertureBalancerSink._AddSink: enough healthy members, the endpoint is held idle
+          /\ idle' = idle \cup {e}
+          /\ Emit(<<[e |-> "Join", ep |-> e], [e |-> "JoinDone", ep |-> e]>>
+                  \o StepEndI(load, ns, neg, heap, epn, idle \cup {e}))
+          /\ UNCHANGED <<heap, load, ns, downq, chan, epn, late, neg>>
+     ELSE /\ Cardinality(Created) < MaxNodes
+          /\ LET g == AppendNode(Work0, e, IF Faults THEN (IF Aperture THEN IDLE ELSE CLOSED) ELSE OPEN)
+             IN /\ heap' = g.heap
+                /\ load' = g.load
+                /\ ns' = g.ns
+                /\ epn' = g.epn
+                /\ chan' = g.chan
+                /\ Emit(<<[e |-> "Join", ep |-> e]>> \o g.evs \o <<[e |-> "JoinDone", ep |-> e]>>
+                        \o StepEnd(g.load, g.ns, neg, g.heap, g.epn))
+                /\ UNCHANGED <<downq, late, neg, idle>>
 
 JoinDup(e) ==
-  /\ Membership /\ Noise /\ e \in CurEps
+  /\ Membership /\ Noise /\ e \in Members
   /\ Emit(<<[e |-> "Join", ep |-> e], [e |-> "JoinDone", ep |-> e]>> \o StepEnd(load, ns, neg, heap, epn))
   /\ UNCHANGED ivars
 
-RemoveSink(e) ==
-  /\ Membership /\ e \in CurEps
-  /\ LET n == CHOOSE m \in NodeIds : ns[m] = "in" /\ epn[m] = e
-         closes == load[n] = 0 \/ load[n] >= P
-         nss == [ns EXCEPT ![n] = "rm"]
-         hp == SubSeq(SwapOut(heap, load, PosOf(heap, n), Size), 1, Size - 1)
-     IN /\ heap' = hp
-        /\ ns' = nss
-        /\ chan' = [chan EXCEPT ![n] = CLOSED]     \* never read again for a discarded node
-        /\ Emit(<<[e |-> "Leave", ep |-> e]>>
-                \o (IF closes THEN <<[e |-> "CloseSeen", n |-> n]>> ELSE <<>>)
-                \o <<[e |-> "LeaveDone", ep |-> e]>> \o StepEnd(load, nss, neg, hp, epn))
-        /\ UNCHANGED <<load, downq, epn, late, neg>>
+RemoveSink(e, pick, nst) ==
+  /\ Membership /\ e \in Members
+  /\ IF e \in idle
+     THEN \* ApertureBalancerSink._RemoveSink of an endpoint held idle: no node, just forgotten
+          /\ idle' = idle \ {e}
+          /\ Emit(<<[e |-> "Leave", ep |-> e], [e |-> "LeaveDone", ep |-> e]>>
+                  \o StepEndI(load, ns, neg, heap, epn, idle \ {e}))
+          /\ UNCHANGED <<heap, load, ns, downq, chan, epn, late, neg>>
+     ELSE LET n == CHOOSE m \in NodeIds : ns[m] = "in" /\ epn[m] = e
+              closes == load[n] = 0 \/ load[n] >= P
+              hp == SubSeq(SwapOut(heap, load, PosOf(heap, n), Size), 1, Size - 1)
+              w == [Work0 EXCEPT !.heap = hp, !.ns[n] = "rm",
+                                 !.chan[n] = CLOSED]     \* never read again for a discarded node
+              \* ApertureBalancerSink._RemoveSink: the departed member is replaced from the idle set
+              g == IF Aperture THEN Expand(w, pick, nst) ELSE w
+          IN /\ ~g.over
+             /\ heap' = g.heap
+             /\ load' = g.load
+             /\ ns' = g.ns
+             /\ chan' = g.chan
+             /\ epn' = g.epn
+             /\ idle' = g.idle
+             /\ Emit(<<[e |-> "Leave", ep |-> e]>>
+                     \o (IF closes THEN <<[e |-> "CloseSeen", n |-> n]>> ELSE <<>>)
+                     \o g.evs
+                     \o <<[e |-> "LeaveDone", ep |-> e]>> \o StepEndI(g.load, g.ns, neg, g.heap, g.epn, g.idle))
+             /\ UNCHANGED <<downq, late, neg>>
 
 LeaveUnknown(e) ==
-  /\ Membership /\ Noise /\ e \notin CurEps
+  /\ Membership /\ Noise /\ e \notin Members
   /\ Emit(<<[e |-> "Leave", ep |-> e], [e |-> "LeaveDone", ep |-> e]>> \o StepEnd(load, ns, neg, heap, epn))
   /\ UNCHANGED ivars
 
 ChanFlip(n, st) ==
   /\ Faults /\ ns[n] = "in" /\ chan[n] # st
+  /\ chan[n] = IDLE => st = OPEN          \* a pending Open() completes successfully
   /\ chan' = [chan EXCEPT ![n] = st]
-  /\ UNCHANGED <<heap, load, ns, downq, epn, late, neg, abs, viol>>
+  /\ UNCHANGED <<heap, load, ns, downq, epn, late, neg, idle, abs, viol>>
+
+\* the aperture admits the first MinSize endpoints (none of them Closed), the others are held idle
+InHeap0 == IF Aperture /\ MinSize < InitN THEN MinSize ELSE InitN
 
 Init ==
-  /\ heap = [i \in 1..InitN |-> i]
+  /\ heap = [i \in 1..InHeap0 |-> i]
   /\ load = [n \in NodeIds |-> 0]
-  /\ ns = [n \in NodeIds |-> IF n <= InitN THEN "in" ELSE "free"]
+  /\ ns = [n \in NodeIds |-> IF n <= InHeap0 THEN "in" ELSE "free"]
   /\ downq = <<>>
-  /\ chan = [n \in NodeIds |-> IF n <= InitN THEN OPEN ELSE CLOSED]
-  /\ epn = [n \in NodeIds |-> IF n <= InitN THEN n ELSE 0]
+  /\ chan = [n \in NodeIds |-> IF n <= InHeap0 THEN OPEN ELSE CLOSED]
+  /\ epn = [n \in NodeIds |-> IF n <= InHeap0 THEN n ELSE 0]
   /\ late = [n \in NodeIds |-> 0]
   /\ neg = 0
-  /\ abs = [AInit0("heap", 1..InitN) EXCEPT !.loaded = TRUE,
-                                          !.node = [n \in 1..InitN |-> NewNode(n)]]
+  /\ idle = (InHeap0 + 1)..InitN
+  /\ abs = [AInit0(IF Aperture THEN "aperture" ELSE "heap", 1..InitN)
+              EXCEPT !.loaded = TRUE, !.node = [n \in 1..InHeap0 |-> NewNode(n)]]
   /\ viol = "ok"
 
+Picks == IF Aperture THEN Eps ELSE {0}
+NewSts == IF Aperture /\ Faults THEN {OPEN, IDLE} ELSE {OPEN}
+
 Next ==
-  \/ Dispatch
+  \/ \E pick \in Picks, nst \in NewSts : Dispatch(pick, nst)
   \/ \E n \in NodeIds, j \in 1..MaxNodes, k \in {"reply", "timeout"} : Put(n, j, k)
   \/ \E n \in NodeIds : LateArrive(n)
-  \/ \E e \in Eps : AddSink(e) \/ JoinDup(e) \/ RemoveSink(e) \/ LeaveUnknown(e)
+  \/ \E e \in Eps : AddSink(e) \/ JoinDup(e) \/ LeaveUnknown(e)
+  \/ \E e \in Eps, pick \in Picks, nst \in NewSts : RemoveSink(e, pick, nst)
   \/ \E n \in NodeIds, st \in {OPEN, CLOSED} : ChanFlip(n, st)
 
 Spec == Init /\ [][Next]_vars
@@ -262,4 +359,8 @@ Structural ==
   \* the invariant of DESIGN 5/C04
   /\ \A n \in Created : Eff(load, n) = abs.node[n].out
   /\ neg = 0
+  \* the balancer holds exactly the server set: heap endpoints + idle endpoints, disjoint
+  /\ idle \cap CurEps = {}
+  /\ Members = abs.S
+  /\ ~Aperture => idle = {}
 =============================================================================
